@@ -222,6 +222,25 @@ def audit(pid, theorems, imports):
     return res
 
 
+def tie_check(pid, generate, targets, theorems):
+    """Helper for a module's secondary_tie(ctx): `generate()` re-translates the source functions into a Lean file under
+    lean/IblVerif/Generated/ (returns (ok, message)); then the tie modules are built and their theorems audited.
+    Returns {'ok', 'detail', 'theorems'}."""
+    try:
+        ok, msg = generate()
+    except Exception as e:  # noqa
+        ok, msg = False, f'{type(e).__name__}: {e}'
+    if not ok:
+        return {'ok': False, 'detail': 'source translation failed: ' + str(msg), 'theorems': {}}
+    good, errs, log = lake_build(targets)
+    if not good:
+        return {'ok': False, 'detail': 'tie theorems do not build against the translated source: ' + '; '.join(errs[:4] or [log[-600:]]), 'theorems': {}}
+    res = audit(pid + '_tie', theorems, targets)
+    bad = {t: info for t, (g, info) in res.items() if not g}
+    return {'ok': not bad, 'detail': 'translated source = model' if not bad else f'not proved: {bad}',
+            'theorems': {t: info for t, (g, info) in res.items()}}
+
+
 def leanchecker(modules):
     rc, so, se = run_cmd(['lake', 'env', 'leanchecker'] + list(modules), cwd=LEAN, timeout=3000)
     return rc == 0, (so + se)[-2000:]
@@ -258,6 +277,7 @@ class Ctx:
         self.consts = {}
         self.known_hits = collections.Counter()
         self.exhaustive = False
+        self.escalated = False       # set when a secondary tie broke: property modules deepen their correspondence
         self.t0 = time.time()
 
     @property
@@ -395,6 +415,21 @@ def run_property(pid, tier, replay_path=None):
                 ctx.note('leanchecker ' + ('ok' if good else 'FAILED'))
                 if not good:
                     reasons.append({'kind': 'proof-obligation', 'detail': 'leanchecker rejected the compiled modules', 'log': out})
+        # 3b. secondary tie (optional): source functions translated to Lean on this run + theorems `translated = model`.
+        #     A break here is NOT a reason by itself (the deciding tie is the correspondence run): it is recorded and the
+        #     module's escalate(ctx) hook deepens the correspondence on the mechanism concerned (DESIGN §11.7).
+        ctx.secondary_tie = None
+        if hasattr(mod, 'secondary_tie'):
+            try:
+                ctx.secondary_tie = mod.secondary_tie(ctx)      # {'ok': bool, 'detail': str, 'theorems': {...}}
+            except Timeout:
+                raise
+            except Exception as e:
+                ctx.secondary_tie = {'ok': False, 'detail': f'secondary tie raised {type(e).__name__}: {e}'}
+            if not ctx.secondary_tie.get('ok'):
+                ctx.escalated = True
+                ctx.note('secondary tie (translated source = model) does not check: ' + str(ctx.secondary_tie.get('detail'))[:600]
+                         + ' — correspondence escalated')
         # 4. correspondence (needs the driver, i.e. the model files, to build)
         corr_err = None
         try:
@@ -473,6 +508,7 @@ def run_property(pid, tier, replay_path=None):
         'disagreements_found': len(ctx.mismatches),
         'generated_constants': jsonable(ctx.consts),
         'constants_not_reextracted': list(getattr(ctx, 'stale_constants', [])),
+        'secondary_tie': jsonable(getattr(ctx, 'secondary_tie', None)),
         'known_findings_reported': kf_lines,
         'notes': ctx.notes,
         'exhaustive': bool(ctx.exhaustive),
